@@ -233,6 +233,9 @@ def run(prop, tier, seed, replay=None):
     if prop == 'C10' and not replay:
         from checks import multilang
         multilang.rotation_phase(c, tier)
+    if prop == 'C09' and not replay:
+        from checks import expand
+        expand.phase(c, tier)
     import collections
     hist = collections.Counter(s for r in ok for s in set(r['doc']))
     c.extra['documents_containing_symbol'] = dict(sorted(hist.items(), key=lambda kv: -kv[1]))
